@@ -110,34 +110,29 @@ def truth_of_prefix(recs):
     return done, opened
 
 
-FAKE = 1 << 40
-
-
-def truth_of_suffix(recs, ti):
+def truth_of_suffix(recs, ti=0):
     """data that starts at depth > 0 (fork child, first buffers lost): the frames open at the first record are
-    inherited - they count from the first record's time, are named by their EXIT record (or <0> when they never
-    exit) and are never "recursive" (their address is unknown to the code).  In the ground truth each gets a
-    private address FAKE + ... ; returns (done, opened, {private address: real address or 0})"""
+    inherited - in the ground truth they are calls whose ENTRY address is 0 (unknown: never recursive), entered
+    at the first record's time and named by their EXIT record (<0> when they never exit).
+    A call is [a, t0, t1, kids] or, for an inherited frame, [0, a, t0, t1, kids]; returns (done, opened, k)"""
     ty0, d0, _, t_first = recs[0]
     k = d0 + (1 if ty0 == EXIT else 0)
     root = {"kids": []}
     stack = [root]
-    fakes = {}
     for lvl in range(k):
-        fa = FAKE + ti * 2048 + lvl
-        fakes[fa] = 0
-        stack.append({"a": fa, "t0": t_first, "kids": []})
+        stack.append({"a": 0, "t0": t_first, "kids": [], "inh": True})
     for ty, d, a, t in recs:
         if ty == ENTRY:
             stack.append({"a": a, "t0": t, "kids": []})
         else:
             fr = stack.pop()
-            if fr["a"] in fakes:
-                fakes[fr["a"]] = a
-            stack[-1]["kids"].append([fr["a"], fr["t0"], t, fr["kids"]])
+            if fr.get("inh"):
+                stack[-1]["kids"].append([0, a, fr["t0"], t, fr["kids"]])
+            else:
+                stack[-1]["kids"].append([fr["a"], fr["t0"], t, fr["kids"]])
     done = root["kids"]
     opened = [(fr["a"], fr["t0"], fr["kids"]) for fr in stack[1:]]
-    return done, opened, fakes
+    return done, opened, k
 
 
 def mark_lost(rng, forest, fns, tags):
@@ -254,8 +249,9 @@ def gen_case(ctx, idx, program=None, kind=None):
                 if recs[0][0] == EXIT:
                     tags.append("starts-with-exit")
                 truth = truth_of_suffix(recs, ti)
-                if any(v == 0 for v in truth[2].values()):
+                if any(o[0] == 0 for o in truth[1]):
                     tags.append("inherited-frame-never-exits")
+                tags.append("inherited-%d" % min(truth[2], 3))
         elif kind == "extra-exit":
             t = recs[-1][3] + 7 * scale
             d, _ = truth_of_prefix(recs)
@@ -365,10 +361,6 @@ def name_table(case):
                 return n
         return "<%x>" % a
     amap = {a: nm(a) for a in addrs}
-    for t in case["tasks"]:
-        if t.get("truth") and len(t["truth"]) > 2:
-            for fa, real in t["truth"][2].items():
-                amap[fa] = nm(real)
     allnames = sorted(set(amap.values()) | set(s[3] for s in case["syms"]), key=lambda s: s.encode())
     num = {n: i + 1 for i, n in enumerate(allnames)}
     return {a: num[n] for a, n in amap.items()}, num, amap
@@ -468,6 +460,8 @@ def q_list(xs):
 
 
 def q_call(c):
+    if len(c) == 5:
+        return "CallX %d %d %d %d %s" % (c[0], c[1], c[2], c[3], q_list([q_call(k) for k in c[4]]))
     return "Call %d %d %d %s" % (c[0], c[1], c[2], q_list([q_call(k) for k in c[3]]))
 
 
@@ -483,10 +477,9 @@ def q_truth(case):
     return "Some " + q_list(tts)
 
 
-def truth_is_flat(case):
-    """the ground truth flattens to exactly the records written (no inherited frames)"""
-    # (LOST markers are erased before the comparison)
-    return all(t["truth"] is not None and (len(t["truth"]) < 3 or not t["truth"][2]) for t in case["tasks"])
+def inherited_counts(case):
+    """per task: number of frames open at the first record (0 for data starting at depth 0)"""
+    return [(t["truth"][2] if t["truth"] is not None and len(t["truth"]) > 2 else 0) for t in case["tasks"]]
 
 
 def q_case(case, amap):
@@ -525,7 +518,11 @@ Definition nd nm call ts tr ta tmi tma ss sr sa smi sma :=
   mknode nm call (mkstat ts tr tmi tma ta) (mkstat ss sr smi sma sa).
 Record tcase := mk { tc : case; i_rows : list (list (N * N * N * bool)); i_tbl : list node;
                      i_sorts : list (list key * list N); i_truth : option (list ttrace);
-                     i_order : list nat; i_grows : list (N * N * N * bool); i_flat : bool }.
+                     i_order : list nat; i_grows : list (N * N * N * bool); i_inh : list nat }.
+(* generator self-check: the ground truth flattens to the records written, LOST markers erased, preceded by one
+   ENTRY record of address 0 at the first record's time per frame open when the data begins *)
+Definition zeros' (k : nat) (rs : list rec) : list rec :=
+  match rs with [] => [] | r0 :: _ => map (fun i => mkrec ENTRY (N.of_nat i) 0 (r_time r0)) (seq 0 k) end.
 (* the merged stream: i_order names the task whose next record is read (min time, lowest index on ties) *)
 Fixpoint weave (order : list nat) (tasks : list (list rec)) : list (nat * rec) :=
   match order with
@@ -546,8 +543,10 @@ Definition sorts_ok t := forallb (fun p => list_eqb (map n_name (sort_nodes (fst
 Definition rec_eqb (a b : rec) := Bool.eqb (is_exit a) (is_exit b) && Bool.eqb (is_lost a) (is_lost b)
   && (r_depth a =? r_depth b) && (r_addr a =? r_addr b) && (r_time a =? r_time b).
 Fixpoint recs_eqb (a b : list rec) := match a, b with [], [] => true | x :: a', y :: b' => rec_eqb x y && recs_eqb a' b' | _, _ => false end.
-Definition truth_ok t := negb (i_flat t) || match i_truth t with
-                         | Some tts => forallb (fun p => recs_eqb (trace_recs (fst p)) (filter (fun r => negb (is_lost r)) (snd p))) (combine tts (c_tasks (tc t)))
+Definition truth_ok t := match i_truth t with
+                         | Some tts => forallb (fun p => let rs := filter (fun r => negb (is_lost r)) (snd (fst p)) in
+                                                         recs_eqb (trace_recs (fst (fst p))) (zeros' (snd p) rs ++ rs))
+                                               (combine (combine tts (c_tasks (tc t))) (i_inh t))
                                        && Nat.eqb (length tts) (length (c_tasks (tc t)))
                          | None => true end.
 Definition prop_table t := match i_truth t with Some tts => ok_table (c_names (tc t)) tts (i_tbl t) | None => true end.
@@ -584,7 +583,7 @@ def q_tcase(case, res, amap, num):
                     for n, tot, slf, rc in res["grows"]])
     return "mk (%s) %s %s %s (%s) %s %s %s" % (q_case(case, amap), q_list(rows), q_list([q_node(n, num) for n in res["nodes"]]),
                                             sorts, q_truth(case), q_list(["%d%%nat" % i for i in merge_order(case)]), grows,
-                                            coq.coq_bool(truth_is_flat(case)))
+                                            q_list(["%d%%nat" % k for k in inherited_counts(case)]))
 
 
 # ---------------------------------------------------------------- end-to-end option sets
@@ -722,7 +721,7 @@ def case_json(case):
             "tasks": [{"tid": t["tid"], "recs": [list(r) for r in t["recs"]],
                        "truth": None if t["truth"] is None else
                        [t["truth"][0], [list(o) for o in t["truth"][1]],
-                        {str(k): v for k, v in (t["truth"][2] if len(t["truth"]) > 2 else {}).items()}]}
+                        (t["truth"][2] if len(t["truth"]) > 2 else 0)]}
                       for t in case["tasks"]]}
 
 
@@ -733,7 +732,7 @@ def case_from_json(j):
             "tasks": [{"tid": t["tid"], "recs": [tuple(r) for r in t["recs"]],
                        "truth": None if t["truth"] is None else
                        (t["truth"][0], [tuple(o) for o in t["truth"][1]],
-                        {int(k): v for k, v in (t["truth"][2] if len(t["truth"]) > 2 else {}).items()})}
+                        (t["truth"][2] if len(t["truth"]) > 2 else 0))}
                       for t in j["tasks"]]}
 
 
